@@ -426,6 +426,18 @@ class CallMixin:
         fghosts = {g for g, (cid, _) in (extra_cells or {}).items() if isinstance(cid, tuple) and cid and cid[0] == 'fghost'}
         for c in spec.requires:
             try:
+                mwhen = re.match(r'^when\s+(\w+)\s+is\s+([^:]+):\s*(.*)$', c.text, re.S)
+                if mwhen:
+                    # clause about one dynamic type of an interface-valued argument: demanded where that is the static type
+                    av = allnames.get(mwhen.group(1), (None, None))[0]
+                    want = self.type_from_ast(parse_expr(mwhen.group(2).strip()), env)
+                    have = self.iface_static.get(av, (None, None))[0] if is_term(av) else None
+                    if have != want:
+                        continue
+                    t = self.eval_bool(parse_expr(mwhen.group(3)), env)
+                    self.oblige('pre', t, st, '%s: %s' % (label, c.text), pos, clause=None,
+                                slug='%s-%s' % (label, c.slug()), fnname=self.cur_name(ctx))
+                    continue
                 conj = split_conj(c.parse()) if fghosts else [c.parse()]
                 check = [a for a in conj if not (ast_names(a) & fghosts)]
                 init = [a for a in conj if ast_names(a) & fghosts]
